@@ -148,3 +148,26 @@ Example C02_example_island_lookup :
   site_owner (island_site [22; 12; 6; 7; 6]%Z [78; 36; 9; 6; 6]%Z [] [] [] 200 20) (A_solver, 401%Z) = OTask 2 /\
   site_owner (island_site [22; 12; 6; 7; 6]%Z [78; 36; 9; 6; 6]%Z [] [] [] 200 20) (A_qacc, 3%Z) = ORead.
 Proof. vm_compute. repeat split. Qed.
+
+(* KNOWN finding C02-F3: the footprint hypothesis of C02_schedule_independent FAILS for the island task
+   of the PGS solver with a dense Jacobian as coded (engine_solver.c residual() dots the whole
+   efc_force vector): on the two-island instance [pgs_dense_task] of Model/ParMap.v each task reads
+   the efc_force entry owned by the other task, so neither task respects the island footprint table.
+   C02_island_solve therefore does NOT apply to that configuration; that the implementation is still
+   bit-identical there rests on the foreign entries being multiplied by exact zeros of efc_AR
+   (0 * finite = +-0), which is OBSERVED by the bitwise oracle, not proved. *)
+Theorem C02_pgs_dense_footprint_refuted :
+  forall t : nat, ~ respects (site_owner pgs_site) 0 t (pgs_dense_task 0 t) /\
+                  ~ respects (site_owner pgs_site) 1 t (pgs_dense_task 1 t).
+Proof. exact pgs_dense_outside_footprint. Qed.
+Print Assumptions C02_pgs_dense_footprint_refuted.
+
+(* over the integers (where 0 * x = 0 for every x) the two tasks still commute: an interleaved
+   schedule and the sequential loop agree -- the integer analogue of what the oracle observes *)
+Example C02_pgs_dense_example :
+  exists c : cfg Z,
+    acts pgs_dense_task (init_cfg 2 (fun l : loc => (7 + snd l)%Z))
+      [(1, Some 1); (0, Some 0); (1, None); (0, None); (0, None); (1, None); (0, None); (1, None); (1, None); (0, None)]%nat = Some c /\
+    pending c = [] /\ running c = [] /\
+    map (fun e : Z => cmem c (A_efc_force, e)) [0; 1]%Z = map (fun e : Z => seq_run pgs_dense_task 2 (fun l : loc => (7 + snd l)%Z) (A_efc_force, e)) [0; 1]%Z.
+Proof. eexists. vm_compute. repeat split. Qed.
